@@ -587,13 +587,18 @@ Inductive edit :=
 | EAdd (eid : option string) (rule : string) (l r : list (string * Z))
 | ERmRxn (e : string)
 | ERmSp (x : string) (prune : bool)
-| EMol (x m : string).
+| EMol (x m : string)
+| EMolMap (mp : list (string * string)) (strict clear : bool)                                   (* H.set_mol_map(mp, strict=, clear_existing=) *)
+| EMerge (kept : list string) (rxns : list (option string * string * list (string * Z) * list (string * Z)))
+         (mols : list (string * string)) (prefix : bool).                                        (* H.merge(<another network>, prefix_edges=) *)
 Definition apply_edit (s : net) (ed : edit) : net :=
   match ed with
   | EAdd eid rule l r => (add s (normalize l) (normalize r) rule eid).1.1
   | ERmRxn e => (remove_rxn s e).1
   | ERmSp x p => (remove_species s x p).1
   | EMol x m => (assign_mol s x m).1
+  | EMolMap mp strict clear => (set_mol_map s mp strict clear).1
+  | EMerge kept rxns mols prefix => (merge s (mk_net kept rxns mols) prefix).1
   end.
 
 (** the network is observed before and after the views (the implementation runs them all on ONE object: an export that
